@@ -155,6 +155,11 @@ def make_cases(ctx):
         ("missing-config-beside-rules", base, [], ["file-placement", "--rules", "{}", "--config", "nope.yaml"], ["."]),
         ("missing-config-group-with-project-root", base, ["--config", "nope.yaml", "--project-root", "."], ["nesting"], ["."]),
         ("missing-config-with-project-root", base, ["--project-root", "."], ["nesting", "--config", "nope.yaml"], ["."]),
+        # text that is malformed JSON but happens to be well-formed YAML flow style (a trailing comma): a *.json file is JSON for every command
+        ("malformed-json-explicit", dict(base, **{"bad.json": '{"nesting": {"max_nesting_depth": 3,},}'}), [], ["nesting", "--config", "bad.json"], ["."]),
+        ("malformed-json-explicit-dry", dict(base, **{"bad.json": '{"dry": {"min_duplicate_lines": 3,},}'}), [], ["dry", "--config", "bad.json"], ["."]),
+        ("malformed-json-explicit-file-placement", dict(base, **{"bad.json": '{"file-placement": {"global_deny": [],},}'}), [], ["file-placement", "--config", "bad.json"], ["."]),
+        ("malformed-json-group", dict(base, **{"bad.json": '{"nesting": {"max_nesting_depth": 3,},}'}), ["--config", "bad.json"], ["srp"], ["."]),
         ("yaml-list-config-dry", dict(base, **{"list.yaml": "- a\n- b\n"}), [], ["dry", "--config", "list.yaml"], ["."]),
         ("yaml-list-config", dict(base, **{"list.yaml": "- a\n- b\n"}), [], ["nesting", "--config", "list.yaml"], ["."]),
         ("bad-option-value", base, [], ["nesting", "--max-depth", "x"], ["."]),
@@ -341,6 +346,7 @@ def run(ctx):
         check_case(ctx, case, o["value"])
     run_empty_keys(ctx)
     run_console_encodings(ctx)
+    run_json_twins(ctx)
     ctx.obs["commands_with_violations"] = sorted(k[4:] for k in ctx.counters if k.startswith("cmd:"))
     missing = [c for c in triggers.CMDS if "cmd:" + c not in ctx.counters]
     ctx.inconclusive_if(ctx.counters["runs_with_many"] < 10 or ctx.counters["runs_with_0"] < 10, "too few many/zero-violation runs observed")
@@ -376,6 +382,49 @@ def console_encoding_job(arg):
                 out["same"], out["json_err"] = False, "sarif shape: %r" % (e,)
         out["head"] = r.out[:160]
     return out
+
+
+def json_twin_job(arg):
+    files, cmd, sec, body = arg
+    out = {}
+    for label, name, text in (("yaml", "c.yaml", json.dumps({sec: body})), ("json-tabs", "c.json", json.dumps({sec: body, "x-note": 1e16}, indent="\t")),
+                              ("json-compact", "c2.json", json.dumps({sec: body}, separators=(",", ":")))):
+        d = runner.new_dir("j")
+        runner.write_tree(d, dict(files, **{name: text}))
+        r = runner.cli([cmd, "--config", name, "--format", "json", "."], d)
+        vs = r.violations()
+        out[label] = {"exit": r.exit, "v": None if vs is None else sorted([v["rule_id"], v["file_path"], v["line"], v["column"], v["message"]] for v in vs), "err": r.err[-200:]}
+    return out
+
+
+def run_json_twins(ctx):
+    """A valid configuration is a valid configuration in either documented format: the same settings handed over with --config as YAML, as
+    tab-indented JSON and as compact JSON give the same exit code and findings for every command that takes --config."""
+    from ..gen import staircase
+
+    proj = {k: v for k, v in dict(staircase.files(), **triggers.files("j")).items() if not k.startswith(".thailint")}
+    cases = [("nesting", "nesting", {"enabled": True, "max_nesting_depth": 2}), ("srp", "srp", {"enabled": True, "max_methods": 2}),
+             ("magic-numbers", "magic-numbers", {"enabled": True, "allowed_numbers": [0, 1]}), ("dry", "dry", {"enabled": True, "min_duplicate_lines": 3, "storage_mode": "memory"}),
+             ("file-placement", "file-placement", {"global_deny": [{"pattern": ".*\\.py$", "reason": "none here"}]}), ("stringly-typed", "stringly-typed", {"enabled": True, "min_occurrences": 2}),
+             ("method-property", "method-property", {"enabled": True}), ("pipeline", "collection-pipeline", {"enabled": True, "min_continues": 1})]
+    jobs = [(proj, c, sec, body) for c, sec, body in cases]
+    for (fs, c, sec, body), o in zip(jobs, runner.pmap(json_twin_job, jobs, timeout=600)):
+        if not o.get("ok"):
+            ctx.inconclusive_if(True, "json-twin job %s failed in harness: %s" % (c, str(o)[:300]))
+            continue
+        v = o["value"]
+        ref = v["yaml"]
+        if ref["v"] is None or ref["exit"] not in (0, 1):
+            ctx.inconclusive_if(True, "json-twin reference run of %s failed: exit %s %s" % (c, ref["exit"], ref["err"]))
+            continue
+        for label in ("json-tabs", "json-compact"):
+            ctx.evaluations += 1
+            ctx.count("json_twin_runs")
+            ctx.nontrivial(["json-twin", c, label, ref["exit"]])
+            if v[label]["exit"] != ref["exit"] or v[label]["v"] != ref["v"]:
+                ctx.discrepancy("valid-json-config-differs:%s:%s" % (c, label), "`%s --config <%s>`: exit %s with %s findings, the same settings as YAML: exit %s with %d findings (stderr: %s)" % (
+                    c, label, v[label]["exit"], None if v[label]["v"] is None else len(v[label]["v"]), ref["exit"], len(ref["v"]), v[label]["err"][-150:]),
+                    {"argv": [c, "--config", "c.json", "--format", "json", "."], "config": {sec: body}, "carrier": label}, fs)
 
 
 def run_console_encodings(ctx):
